@@ -62,7 +62,8 @@ Issue(s, u, d) ==
     /\ UNCHANGED clock
 
 \* --- environment -------------------------------------------------------
-OtherUser(u) == CHOOSE v \in Users : v # u
+\* the "other" user an attacker / faulty issuer names: bob, or alice for bob's own tokens
+OtherUser(u) == IF u = "@bob:example.org" THEN "@alice:example.org" ELSE "@bob:example.org"
 OtherSecret(s) == CHOOSE v \in Secrets : v # s
 
 Alter(kind) ==
